@@ -49,6 +49,7 @@ type layers struct {
 	keys     []string
 	limit    int
 	admitKey string
+	remove   func(key string) // partitioned strategies: remove the partition of that key (its outstanding tokens stay valid)
 }
 
 func keyCtx(k string) context.Context {
@@ -82,9 +83,13 @@ func buildLayers(r *rand.Rand) layers {
 			if k == "zz" {
 				return -1
 			}
-			n, _ := s.BinBusyCount(k)
+			n, err := s.BinBusyCount(k)
+			if err != nil {
+				return -1
+			}
 			return n
 		}
+		ly.remove = func(k string) { s.RemovePartition(k) }
 	default:
 		var ps []*strategy.PredicatePartition
 		for _, k := range []string{"a", "b"} {
@@ -96,16 +101,26 @@ func buildLayers(r *rand.Rand) layers {
 		}
 		st, ly.name, ly.busy = s, "default+predicate", s.BusyCount
 		ly.keys = []string{"a", "b", "zz"}
+		removedB := false
 		ly.bin = func(k string) int {
 			switch k {
 			case "a":
 				n, _ := s.BinBusyCount(0)
 				return n
 			case "b":
+				if removedB {
+					return -1
+				}
 				n, _ := s.BinBusyCount(1)
 				return n
 			}
 			return -1
+		}
+		ly.remove = func(k string) {
+			if k == "b" {
+				s.RemovePartitionsMatching(keyCtx("b"))
+				removedB = true
+			}
 		}
 	}
 	dl, err := limiter.NewDefaultLimiter(limit.NewFixedLimit("c02", limitV, nil), 1, 1, 0, 10, st, limit.NoopLimitLogger{}, core.EmptyMetricRegistryInstance)
@@ -149,7 +164,22 @@ func sequentialCase(idx int64, r *rand.Rand) {
 		rt.Count("sequential_layer_checks", 1)
 		return true
 	}
+	removeAt := -1
+	if ly.remove != nil && r.IntN(2) == 0 {
+		removeAt = 10 + r.IntN(40)
+	}
 	for i := 0; i < 40+r.IntN(80); i++ {
+		if i == removeAt {
+			// the partition goes away while some of its tokens are outstanding: completing them must still give back
+			// exactly one unit each
+			ly.remove("b")
+			ops = append(ops, fmt.Sprintf("remove-partition(b) with %d of its tokens outstanding", perKey["b"]))
+			rt.Count("partition_removed_with_tokens_outstanding", int64(perKey["b"]))
+			if !check() {
+				return
+			}
+			continue
+		}
 		if r.IntN(5) < 3 {
 			k := ly.keys[r.IntN(len(ly.keys))]
 			l, ok := ly.lim.Acquire(keyCtx(k))
